@@ -113,16 +113,16 @@ def main(run: core.Run) -> int:
                 "non-trivial = distinct lassos whose loop was closed (state repetition found)")
     L = 2 if q else 3
     max_bytes = (512 << 10) if q else (16 << 20)
-    join_n = (16,) if q else (16, 256, 4096)
+    join_n = (16,) if q else (16, 256)
     tasks = []
     ht, pt = list(h_tokens()), list(p_tokens())
     for cfg in X.CFGS:
         for pre in [()] + [(t,) for t in ht]:
-            cycles = [c for n in range(1, L + 1) for c in itertools.product(ht, repeat=n)]
+            cycles = [c for n in range(1, L + 1) for c in itertools.product(ht, repeat=n) if n < 3 or not pre]  # 3-token cycles without prefix
             for i in range(0, len(cycles), 30):
                 tasks.append(("hdlc", cfg, pre, cycles[i:i + 30], join_n, max_bytes))
     for pre in [()] + [(t,) for t in pt]:
-        cycles = [c for n in range(1, L + 1) for c in itertools.product(pt, repeat=n)]
+        cycles = [c for n in range(1, L + 1) for c in itertools.product(pt, repeat=n) if n < 3 or not pre]
         for i in range(0, len(cycles), 30):
             tasks.append(("p1", None, pre, cycles[i:i + 30], join_n, max_bytes))
     run.log(f"{len(tasks)} partitions")
@@ -131,7 +131,7 @@ def main(run: core.Run) -> int:
     tot.sample({"reader": "hdlc stuffing=1,abort=0", "prefix": [], "cycle": ["flag"], "form": "per-token", "meaning": "endless inter-frame flag fill, one octet per read()"})
     tot.sample({"reader": "p1", "prefix": ["slash"], "cycle": ["x100"], "meaning": "'/' followed by megabytes without LF"})
     tot.sample({"reader": "p1", "prefix": ["ident"], "cycle": ["line"], "meaning": "identification line + endless data lines, never an end line"})
-    run.bounds = {"prefix_tokens": "<=1", "cycle_tokens": f"<={L}", "horizon": f"{max_bytes} bytes per lasso if the state does not repeat earlier",
+    run.bounds = {"prefix_tokens": "<=1 (none for 3-token cycles)", "cycle_tokens": f"<={L}", "horizon": f"{max_bytes} bytes per lasso if the state does not repeat earlier",
                   "size_bound": "HDLC 4*4096+4096+2*chunk, P1 4*8192+4096+2*chunk (deep sys.getsizeof over the reader's object graph, after every read())"}
     run.assumptions = ["the reader is deterministic and its future depends only on the snapshotted attributes: a repeated snapshot at a cycle boundary closes the loop",
                        "leaks that need an aperiodic driving input or a cycle longer than the bound are out of reach"]
